@@ -337,7 +337,9 @@ class SafeConstructor(BaseConstructor):
                 :(?P<second>[0-9][0-9])
                 (?:\.(?P<fraction>[0-9]*))?
                 (?:[ \t]*(?P<tz>Z|(?P<tz_sign>[-+])(?P<tz_hour>[0-9][0-9]?)
-                (?::(?P<tz_minute>[0-9][0-9]))?))?)?$''', re.X)
+                (?::(?P<tz_minute>[0-9][0-9])
+                (?::(?P<tz_second>[0-9][0-9])
+                (?:\.(?P<tz_fraction>[0-9]{1,6}))?)?)?))?)?$''', re.X)
 
     def construct_yaml_timestamp(self, node):
         value = self.construct_scalar(node)
@@ -371,7 +373,9 @@ class SafeConstructor(BaseConstructor):
         if values['tz_sign']:
             tz_hour = int(values['tz_hour'])
             tz_minute = int(values['tz_minute'] or 0)
-            delta = datetime.timedelta(hours=tz_hour, minutes=tz_minute)
+            delta = datetime.timedelta(hours=tz_hour, minutes=tz_minute,
+                    seconds=int(values['tz_second'] or 0),
+                    microseconds=int((values['tz_fraction'] or '0').ljust(6, '0')))
             if values['tz_sign'] == '-':
                 delta = -delta
             tzinfo = datetime.timezone(delta)
